@@ -399,7 +399,7 @@ func byLabels(mfs map[string]*dto.MetricFamily, name string, keys ...string) map
 }
 
 func main() {
-	run := lib.Start("C13", "batches of concurrent exchanges of 27 kinds (successes with CL/chunked/HEAD, 404/500, refusals 403 for GET and CONNECT, dial failures 502, origin reset in the head, origin close in the body, CONNECT tunnels torn down by client / target / both / RST, 101 upgrades torn down from either side, MITM hand-off with 1-3 inner requests, client RST while uploading / downloading, partial heads, idle connects, client RST while the upstream dial of a CONNECT is pending, keep-alive sequences); after each batch the harness constructs quiescence (all sockets closed, idle upstream connections closed) and compares the gathered Prometheus registry with its ledger: in-flight gauges zero, requests_total delta per (method, code), listener/dialer connection counters, no gauge below zero at any 20 ms sample; conntrack byte counters and OnClose exactly-once under 1-8 concurrent closers; distinct = exchange kinds x batch")
+	run := lib.Start("C13", "batches of concurrent exchanges of 27 kinds (successes with CL/chunked/HEAD, 404/500, refusals 403 for GET and CONNECT, dial failures 502, origin reset in the head, origin close in the body, CONNECT tunnels torn down by client / target / both / RST, 101 upgrades torn down from either side, MITM hand-off with 1-3 inner requests, client RST while uploading / downloading, partial heads, idle connects, client RST while the upstream dial of a CONNECT is pending, keep-alive sequences); after each batch the harness constructs quiescence (all sockets closed, idle upstream connections closed) and compares the gathered Prometheus registry with its ledger: in-flight gauges zero, requests_total delta per (method, code), listener/dialer connection counters, no gauge below zero at any 20 ms sample; conntrack byte counters and OnClose exactly-once under 1-8 concurrent closers; two side configurations (an upstream proxy that stalls, delays, drops or accepts a CONNECT with a 500 ms connect timeout; a PROXY-protocol listener whose clients send no, a partial or a wrong header) whose gauges must return to zero after each round; distinct = exchange kinds x batch")
 	hb := lib.StartHeartbeat()
 	root := run.RNG()
 	w := newWorld(hb)
